@@ -9,6 +9,8 @@ import (
 	"strings"
 	"testing"
 	"testing/synctest"
+
+	"github.com/ory/fosite"
 )
 
 // StoreEventOut is one classified storage-interface call (C20: nothing handed to the storage
@@ -136,6 +138,14 @@ func TestStorageEvents(t *testing.T) {
 					w.Exec(1, Op{Op: "ccreds", Client: "J", Auth: "assertion", Scopes: []string{"a"}})
 					w.Exec(1, Op{Op: "revoke", Client: "J", Auth: "assertion", Kind: "rt", Tok: 2, Hint: "rt"})
 				},
+				// handler/verifiable: the nonce of a userinfo credential request is bound to the access token by the store
+				"vc_nonce": func(w *World) {
+					vcScopes := []string{"openid", "offline", "a", "userinfo_credential_draft_00"}
+					w.Mem.Clients["A"].(*fosite.DefaultClient).Scopes = append(w.Mem.Clients["A"].(*fosite.DefaultClient).Scopes, "userinfo_credential_draft_00")
+					w.Exec(1, Op{Op: "authorize", Client: "A", RType: "code", Scopes: vcScopes, Grant: vcScopes, Redir: "sent", Pkce: "none"})
+					w.Exec(1, Op{Op: "redeem", Client: "A", Auth: auth, Code: 1, Redir: "same", Ver: "none"})
+					w.Exec(1, Op{Op: "refresh", Client: "A", Auth: auth, Tok: 1})
+				},
 				"assertions": func(w *World) {
 					w.Exec(1, Op{Op: "jauth", Val: "jti-a1"})
 					w.Exec(1, Op{Op: "jbearer", Val: "jti-b1"})
@@ -152,6 +162,7 @@ func TestStorageEvents(t *testing.T) {
 					cfg := DefaultCfg()
 					cfg.AT = at
 					cfg.RScopes = []string{}
+					cfg.VC = name == "vc_nonce"
 					w := NewWorld(cfg)
 					w.Rec.Keep = true
 					run(w)
